@@ -160,6 +160,7 @@ type throttler struct {
 	waiting  bool
 	trailing bool
 	stop     bool
+	pending  bool // a trailing trigger is scheduled for the end of the period
 }
 
 // NewThrottle creates a throttled function in order to limit the frequency rate at which the passed in function is invoked.
@@ -190,10 +191,25 @@ func (t *throttler) Call() {
 		if delta > t.duration {
 			t.waiting = true
 			t.cond.Broadcast()
-		} else if t.trailing {
-			t.waiting = true
-			time.AfterFunc(t.duration-delta, t.cond.Broadcast)
+		} else if t.trailing && !t.pending {
+			// A trigger inside the period becomes a permission only when the
+			// period is over, not right away.
+			t.pending = true
+			time.AfterFunc(t.duration-delta, t.release)
 		}
+	}
+}
+
+// release hands out the permission of a trailing trigger at the end of the period.
+func (t *throttler) release() {
+	t.cond.L.Lock()
+	defer t.cond.L.Unlock()
+
+	t.pending = false
+	// Skip the permission if another one was handed out in the meantime.
+	if !t.stop && time.Since(t.last) >= t.duration {
+		t.waiting = true
+		t.cond.Broadcast()
 	}
 }
 
